@@ -19,7 +19,11 @@ NormalToks == << <<"c", "?", <<12>>, "", "l">>, <<"c", "?", <<25>>, "", "h">> >>
 EnterFullscreenToks == << <<"c", "?", <<1049>>, "", "h">>, <<"c", "", <<22, 0, 0>>, "", "t">> >>
 ExitFullscreenToks == << <<"c", "?", <<1049>>, "", "l">>, <<"c", "", <<23, 0, 0>>, "", "t">> >>
 
-RowCells(row) == Cells(row)
+\* the screen cells a row occupies: one per narrow character, two per double-width character, none for a zero-width one
+RowCells(row) ==
+  LET cs == Cells(row)
+  IN FlattenSeq([k \in 1..Len(cs) |-> IF W(cs[k][1]) = 2 THEN <<cs[k], <<0 - cs[k][1], cs[k][2]>>>>
+                                       ELSE IF W(cs[k][1]) = 0 THEN <<>> ELSE <<cs[k]>>])
 RowStr(row) == ImplStr(row)
 ClipRow(row, w) == ImplSlice(row, 0, 1, w, 0)          \* row[:w]
 
